@@ -54,6 +54,11 @@ func TestC17(t *testing.T) {
 		for _, p := range []string{"xsurveyor", "xpub", "xbus", "xstar", "surveyor", "pub", "bus", "star"} {
 			cases = append(cases, mon.CaseSpec{Name: "rawfan/" + p, Spec: spec{Kind: "rawfan", Pat: p, N: r.Pick(1500, 4000)}})
 		}
+		for _, tr := range []string{"tcp", "ipc"} {
+			for _, pat := range []string{"pubsub", "bus", "survey"} {
+				cases = append(cases, mon.CaseSpec{Name: "peerloss/" + pat + "/" + tr, Spec: spec{Kind: "peerloss", Pat: pat, Tran: tr, N: 30 + rnd.Intn(30)}})
+			}
+		}
 		for _, tr := range []string{"inproc", "tcp", "ipc"} {
 			cases = append(cases, mon.CaseSpec{Name: "ownbody/" + tr, Spec: spec{Kind: "ownbody", Tran: tr}})
 		}
@@ -80,6 +85,8 @@ func TestC17(t *testing.T) {
 			runRawFan(c, sp)
 		case "ownbody":
 			runOwnBody(c, sp)
+		case "peerloss":
+			runPeerLoss(c, sp)
 		case "reqretain":
 			runReqRetain(c, sp)
 		case "newmsg":
